@@ -24,7 +24,7 @@ CLAIMED = {
  "C03": ("§4 C03",
    "Bounded model checking of jaq-core's single-output fast paths against a counting source iterator with an ARBITRARY lawful size_hint: "
    "next_if_one, map_with and collect_if_once never consume an item of a stream that may have more than one pending output, and map_with "
-   "consumes exactly k source items for k outputs. Narrow: every interpreter arm (Comma, Alt, label, try), flat_map_* (undecided: CBMC's "
+   "consumes exactly k source items for k outputs; jaq's own Explode iterator reports a lawful size_hint at every step (all 3-byte strings). Narrow: every interpreter arm (Comma, Alt, label, try), flat_map_* (undecided: CBMC's "
    "over-approximated dyn dispatch), Stack, the lazy list, first/limit, inputs and the CLI loop are outside the claim.",
    "Sources of <= 3 u8 items; instantiation Iterator = harness type Src. Thorough tier retries the flat-map, Stack and lazy-list harnesses under a 40 min cap."),
  "C05": ("§4 C05",
@@ -38,6 +38,15 @@ CLAIMED = {
    "values beyond +-2^63 take the big-number path, integers and non-finite values pass through. Narrow: only this one built-in of the property's list; "
    "sort_by/group_by/min_by/max_by engines did not decide (Vec/Exn drop glue) and every jq-defined filter is outside the claim.",
    "alloc::fmt::format stubbed; V = MV."),
+ "C13": ("§4 C13",
+   "Bounded model checking of explode / implode against an INDEPENDENT strict UTF-8 codec written in the harness: implode([x]) is the codec's "
+   "encoding for EVERY isize x (scalar values, negated bytes, errors otherwise); Explode yields the codec's decoding for EVERY byte string of "
+   "length 3 and 4 (2^24 + 2^32 strings: all characters, truncated / overlong / surrogate / out-of-range forms, every ill-formed byte as its own "
+   "negative number); the codec round-trips; hence `explode | implode` is the identity on those strings. Character-wise slicing "
+   "(skip_take_chars) follows an independent Unicode segmentation on every 3-byte string. Narrow: base64/URI/HTML codecs, regex offsets, "
+   "split/join, ascii_*case and every escaping formatter (@sh, @csv, @tsv, @json, @html, @uri) are outside the claim.",
+   "Composition: implode works element by element (one push/extend per element), so per-element encoding + decoding + model round trip give the "
+   "string identity; the direct round-trip harness (Vec growth in a loop) does not decide and is kept as an attempt. alloc::fmt::format stubbed."),
  "C15": ("§4 C15",
    "Bounded model checking of operator precedence: the real `impl Op for BinaryOp` is order-isomorphic to the manual's table for all 25 operators (625 pairs) with the "
    "documented associativity; prec_climb::climb groups `a op1 b op2 c` as the table says for one operator per level (49 pairs quick, 144 thorough) "
@@ -54,7 +63,7 @@ CLAIMED = {
    "Bounded model checking of the position kernels (PosUsize::wrap, abs_bound, abs_index, skip_take, Val::range_int, Num::as_pos_usize) "
    "against an independent i128 position model: for ALL usize lengths and ALL signed positions (full usize magnitude, so big-integer "
    "indices too), negative counts from the end, bounds clip to [0,len], null is open, skip+take <= len; character positions equal byte "
-   "positions on strings of one-byte characters incl. an invalid byte (len <= 2); bytes_splice == old[..skip] ++ repl ++ old[skip+take..] "
+   "positions on strings of one-byte characters incl. an invalid byte (len <= 2); on EVERY 3-byte string character positions follow an independent Unicode segmentation; bytes_splice == old[..skip] ++ repl ++ old[skip+take..] "
    "for all contents and lengths <= 4 (MIR + library contracts, z3/cvc5). Narrow: multi-byte characters, objects, has/length/keys, "
    "destructuring and update semantics through Val / the interpreter are outside the claim.",
    "Assumes the PosUsize representation invariant (negative => magnitude >= 1), itself shown to be established by as_pos_usize."),
@@ -67,7 +76,6 @@ NA = {
  "C06": "absence of system calls over all filters and documents is a whole-program call-graph property including third-party decoders; Kani cannot execute FFI or I/O and nothing in this technique family observes the system-call boundary",
  "C07": "print-then-parse needs core::fmt on the write side (formatting is the subject and cannot be stubbed) and hifijson/Bytes on the read side: the 1-byte to_json -> parse_single probe was undecided at 25 min / 7.6 GB; not claimed (DESIGN.md §4)",
  "C11": "fold::fold and funs::range run on boxed result streams with Exn; the same shapes (Results / Exn / Vec) did not decide for cmp_by and flat_map_then within 300 s (DESIGN.md §2.3); not claimed",
- "C13": "explode/implode round trip on all 2-byte strings undecided at 300 s (Vec, bstr::decode_utf8); kept as a thorough-tier attempt under a 40 min cap, not claimed; base64/URI/HTML/regex are third-party crates",
  "C14": "the YAML plain-scalar writer/reader probe was undecided at 15 min (big-integer fallback unrolled); CBOR/TOML/XML go through third-party parsers; not claimed",
  "C16": "module loading is file-system calls (canonicalize, read_to_string), a typed arena and the compiler's B-tree maps; no symbolic file system is available",
  "C17": "process-level behaviour (stdout bytes, exit status); Cli::parse is bound to std::env::ArgsOs and cannot be driven symbolically without generalising its type",
